@@ -44,7 +44,7 @@ structure Inv (s : State) : Prop where
   wK : ∀ i c, s.winner i = some (.cancel c) →
     (s.ppc i = .inner ∨ s.ppc i = .take ∨ s.ppc i = .final false ∨ s.ppc i = .done) ∧
     (∃ n ver, s.tok i = some (n, ver)) ∧
-    (((∃ n, s.kpc c = .doCancel n i) ∧ s.resumes i = 0 ∧ s.ast i = .suspended ∧ s.canceled i = false ∧ s.result i = none) ∨
+    (((∀ n ver, s.tok i = some (n, ver) → s.kpc c = .doCancel n i) ∧ s.resumes i = 0 ∧ s.ast i = .suspended ∧ s.canceled i = false ∧ s.result i = none) ∨
      ((∀ n, s.kpc c ≠ .doCancel n i) ∧ s.resumes i = 1 ∧ s.canceled i = true ∧ After (s.ast i)))
   /-- cancellers past their take hold the slot and are the winner -/
   kOk : ∀ c n i, (s.kpc c = .doCancel n i ∨ s.kpc c = .finish n i) → s.winner i = some (.cancel c) ∧ Held s.tok s.box n i
@@ -251,7 +251,7 @@ theorem Inv.kFinish {s : State} (hI : Inv s) {c n i : Nat} (hk : s.kpc c = .fini
     obtain ⟨hwj, v', h1, h2, _, _⟩ := hI.kOk c' m j hk'
     have : j = i := hI.tokUniq j i m v' h1 (by rw [hv1, ← hv2, h2])
     subst this
-    rw [hw] at hwj; injection hwj with hwj; injection hwj with hwj; exact hcc hwj
+    rw [hw] at hwj; injection hwj with hwj; injection hwj with hwj; exact hcc hwj.symm
   have hnp : ∀ j m, s.winner j = some .completion → Held s.tok s.box m j → m ≠ n := by
     intro j m hwj ⟨v', h1, h2, _, _⟩ e; subst e
     have : j = i := hI.tokUniq j i m v' h1 (by rw [hv1, ← hv2, h2])
